@@ -131,4 +131,228 @@ theorem conv_unsplit (hW : (Wu R opts plug).OK)
 
 end Unsplit
 
+
+/-! ### the key order of the two registries -/
+
+/-- The modules resp. submodules in key order. -/
+def mkeysOf (R : Registry) : List Mod :=
+  (sortBy (fun (a b : String × Nat) => a.1 < b.1) R.modules).filterMap fun kv => R.byId kv.2
+def skeysOf (R : Registry) : List Mod :=
+  (sortBy (fun (a b : String × Nat) => a.1 < b.1) R.subModules).filterMap fun kv => R.byId kv.2
+
+theorem keyOrder_eq (R : Registry) : keyOrder R = mkeysOf R ++ skeysOf R := rfl
+
+theorem filterMap_congr' {α β : Type} (f g : α → Option β) : ∀ (l : List α), (∀ x ∈ l, f x = g x) → l.filterMap f = l.filterMap g
+  | [], _ => rfl
+  | x :: xs, h => by
+    rw [List.filterMap_cons, List.filterMap_cons, h x (List.mem_cons_self ..),
+      filterMap_congr' f g xs (fun y hy => h y (List.mem_cons_of_mem _ hy))]
+
+section Keys
+variable {s : Split} {R R' : Registry}
+
+theorem mkeys_split (hr : RegsOK s R R') : mkeysOf R' = (mkeysOf R).map (IncludeLink.repl s) := by
+  unfold mkeysOf
+  rw [hr.modules', List.map_filterMap]
+  apply filterMap_congr'
+  intro kv hkv
+  have hkv' : kv ∈ R.modules := (mem_sortBy _ _ _).1 hkv
+  obtain ⟨x, hx, hxs⟩ := hr.keys_valid kv hkv'
+  rw [← hxs, IncludeLink.byId_split_of_mem hr hx, IncludeLink.byId_of_mem hr hx]
+  rfl
+
+theorem skeys_R (hr : RegsOK s R R') : skeysOf R = [] := by
+  unfold skeysOf; rw [hr.subModules]; rfl
+
+theorem skeys_split (hr : RegsOK s R R') : ∀ X ∈ skeysOf R', X ∈ s.subs := by
+  intro X hX
+  unfold skeysOf at hX
+  obtain ⟨kv, hkv, hb⟩ := List.mem_filterMap.1 hX
+  have hkv' : kv ∈ R'.subModules := (mem_sortBy _ _ _).1 hkv
+  rw [hr.subModules'] at hkv'
+  obtain ⟨sb, hsb, rfl⟩ := List.mem_map.1 hkv'
+  rw [IncludeLink.byId_split_of_sub hr hsb] at hb
+  cases hb
+  exact hsb
+
+theorem m_mem_mkeys (hr : RegsOK s R R') : s.m ∈ mkeysOf R := by
+  have h := hr.m_bound
+  unfold Registry.getModule KeyMap.get? at h
+  cases hf : R.modules.find? (·.1 == s.m.name) with
+  | none => rw [hf] at h; cases h
+  | some kv =>
+    rw [hf] at h
+    simp only [Option.map_some, Option.bind_some] at h
+    unfold mkeysOf
+    exact List.mem_filterMap.2 ⟨kv, (mem_sortBy _ _ _).2 (List.mem_of_find?_eq_some hf), h⟩
+
+theorem mem_mkeys_mods {R : Registry} {X : Mod} (h : X ∈ mkeysOf R) : X ∈ R.mods :=
+  IncludeNoAug.mem_keyOrder (by rw [keyOrder_eq]; exact List.mem_append_left _ h)
+
+end Keys
+
+
+/-! ### the split registry -/
+
+section SplitConv
+variable {s : Split} {R R' : Registry} (opts : Opts) (plug : Plug)
+  (ht : TextOK s) (hr : RegsOK s R R') (hl : LinkOK s R (linkAll R).1 (linkAll R').1)
+  (hW : (Ws s R R' opts plug).OK)
+
+/-- What the module cache of the split conversion holds. -/
+def SCache (s : Split) (R : Registry) (opts : Opts) (plug : Plug) (p : Nat × Entry) : Prop :=
+  (∃ x ∈ mkeysOf R, x.seq ≠ s.m.seq ∧ x.seq = p.1 ∧ REb s.σ p.2 (pmodOf R opts plug x)) ∨
+  (p.1 = s.owner.seq ∧ REb s.σ p.2 (powner (envOf R opts plug) (vm s R opts plug) s.m s.owner.stmt (s.subs.map (·.stmt)))) ∨
+  (∃ sb ∈ s.subs, p.1 = sb.seq ∧ REb s.σ p.2 (pmod (envOf R opts plug) (vm s R opts plug) s.m sb.stmt))
+
+structure SInv (s : Split) (R R' : Registry) (opts : Opts) (plug : Plug) (done : List Mod) (st : TState) : Prop where
+  coh : Coh (Ws s R R' opts plug) st.gcache
+  cache : ∀ p ∈ st.cache, SCache s R opts plug p
+  cached : ∀ X ∈ done, ∃ e, (X.seq, e) ∈ st.cache
+  pre : (∀ p ∈ st.cache, p.1 ≠ s.owner.seq) → st.merged = [] ∧ ∀ p ∈ st.cache, ∀ sb ∈ s.subs, p.1 ≠ sb.seq
+  post : (∃ p ∈ st.cache, p.1 = s.owner.seq) → ∀ sb ∈ s.subs, ∃ e, (sb.seq, e) ∈ st.cache
+
+include ht hr hl hW in
+/-- The conversion of the modules of the split registry, in key order. -/
+theorem conv_split_mods :
+    SInv s R R' opts plug ((mkeysOf R).map (IncludeLink.repl s))
+      (((mkeysOf R).map (IncludeLink.repl s)).foldl
+        (fun st m => (toEntry (envOf R' opts plug) (entryFuel R') m [] m.stmt [] st).2) {}) := by
+  refine foldl_prefix_inv (SInv s R R' opts plug) _ _ _
+    ⟨fun p hp => (by cases hp), fun p hp => (by cases hp), fun X hX => (by cases hX),
+      fun _ => ⟨rfl, fun p hp => (by cases hp)⟩, fun ⟨p, hp, _⟩ => (by cases hp)⟩ ?_
+  intro done X' st hXk hinv
+  obtain ⟨x, hxk, rfl⟩ := List.mem_map.1 hXk
+  have hx : x ∈ R.mods := mem_mkeys_mods hxk
+  obtain ⟨f, hf⟩ := entryFuel_succ R'
+  rw [hf]
+  have hX' : IncludeLink.repl s x ∈ R'.mods := IncludeLink.repl_mem hr hx
+  have hseq : (IncludeLink.repl s x).seq = x.seq := IncludeLink.repl_seq hr x
+  have hkwm : isModKw (IncludeLink.repl s x).stmt = true := by
+    by_cases hxm : x.seq = s.m.seq
+    · have : x = s.m := IncludeLink.eq_m_of_seq hr hx hxm
+      rw [this, IncludeLink.repl_m]; exact owner_kw_mod ht
+    · rw [IncludeLink.repl_of_ne hxm]
+      unfold isModKw; rw [(hr.R_modules_only x hx).1]; rfl
+  -- the common part: cached
+  have hdone : ∀ (st' : TState), (∀ p ∈ st.cache, p ∈ st'.cache) → (∃ e, ((IncludeLink.repl s x).seq, e) ∈ st'.cache) →
+      ∀ Y ∈ done ++ [IncludeLink.repl s x], ∃ e, (Y.seq, e) ∈ st'.cache := by
+    intro st' hgrow hnew Y hY
+    rcases List.mem_append.1 hY with hY | hY
+    · obtain ⟨e, he⟩ := hinv.cached Y hY
+      exact ⟨e, hgrow _ he⟩
+    · simp only [List.mem_singleton] at hY
+      subst hY
+      exact hnew
+  cases hfind : st.cache.find? (·.1 == (IncludeLink.repl s x).seq) with
+  | some p =>
+    rw [toEntry_cached _ f _ [] _ [] st p hkwm hfind]
+    have hmem := List.mem_of_find?_eq_some hfind
+    have hk : p.1 = (IncludeLink.repl s x).seq := by simpa using List.find?_some hfind
+    exact ⟨hinv.coh, hinv.cache, hdone st (fun _ h => h) ⟨p.2, by rw [← hk]; exact hmem⟩, hinv.pre, hinv.post⟩
+  | none =>
+    have hnone : ∀ p ∈ st.cache, p.1 ≠ (IncludeLink.repl s x).seq := by
+      intro p hp he
+      have := List.find?_eq_none.1 hfind p hp
+      simp [he] at this
+    by_cases hxm : x.seq = s.m.seq
+    · -- the owner
+      have hxm' : x = s.m := IncludeLink.eq_m_of_seq hr hx hxm
+      subst hxm'
+      rw [IncludeLink.repl_m] at hfind hnone hX' hdone ⊢
+      obtain ⟨hmerged, hnosub⟩ := hinv.pre hnone
+      have oc := owner_conv opts plug ht hr hl hW f st hnosub hmerged hfind hinv.coh
+        (by rw [← hf]; exact top_need R' opts plug s.owner hX')
+      obtain ⟨o1, o2, o3, o4, o5, o6⟩ := oc
+      refine ⟨o2, ?_, hdone _ o6 ⟨_, o4⟩, ?_, fun _ => o5⟩
+      · intro p hp
+        rcases o3 p hp with h | h | h
+        · exact hinv.cache p h
+        · rw [h]; exact Or.inr (Or.inl ⟨rfl, o1⟩)
+        · exact Or.inr (Or.inr h)
+      · intro hno
+        exact absurd rfl (hno _ o4)
+    · -- another module
+      rw [IncludeLink.repl_of_ne hxm] at hfind hnone hX' hdone ⊢
+      have hcr : (Ws s R R' opts plug).CR x [x.stmt] x [x.stmt] := Or.inr ⟨hx, hxm, rfl, rfl⟩
+      have hmx : isModKw x.stmt = true := by unfold isModKw; rw [(hr.R_modules_only x hx).1]; rfl
+      have mc : REb s.σ (toEntry (envOf R' opts plug) (f + 1) x [] x.stmt [] st).1 (pmodOf R opts plug x) ∧
+          Coh (Ws s R R' opts plug) (toEntry (envOf R' opts plug) (f + 1) x [] x.stmt [] st).2.gcache ∧
+          (toEntry (envOf R' opts plug) (f + 1) x [] x.stmt [] st).2.cache =
+            st.cache ++ [(x.seq, (toEntry (envOf R' opts plug) (f + 1) x [] x.stmt [] st).1)] ∧
+          (toEntry (envOf R' opts plug) (f + 1) x [] x.stmt [] st).2.merged = st.merged :=
+        mod_conv (Ws s R R' opts plug) hW x x hX' hmx (hr.R_modules_only x hx).2.2 hcr f [] st (onlyMods_nil _) (by simp)
+          hfind (by rw [← hf]; exact top_need R' opts plug x hX') hinv.coh
+      obtain ⟨m1, m2, m3, m4⟩ := mc
+      refine ⟨m2, ?_, hdone _ (fun p hp => by rw [m3]; exact List.mem_append_left _ hp)
+        ⟨_, by rw [m3]; exact List.mem_append_right _ (List.mem_singleton.2 rfl)⟩, ?_, ?_⟩
+      · intro p hp
+        rw [m3] at hp
+        rcases List.mem_append.1 hp with hp | hp
+        · exact hinv.cache p hp
+        · simp only [List.mem_singleton] at hp
+          subst hp
+          exact Or.inl ⟨x, hxk, hxm, rfl, m1⟩
+      · intro hno
+        rw [m3] at hno
+        obtain ⟨h1, h2⟩ := hinv.pre (fun p hp => hno p (List.mem_append_left _ hp))
+        refine ⟨by rw [m4]; exact h1, ?_⟩
+        intro p hp sb hsb
+        rw [m3] at hp
+        rcases List.mem_append.1 hp with hp | hp
+        · exact h2 p hp sb hsb
+        · simp only [List.mem_singleton] at hp
+          subst hp
+          exact fun he => hr.sub_seqs_fresh sb hsb x hx he.symm
+      · rintro ⟨p, hp, hpo⟩
+        rw [m3] at hp
+        have hp' : p ∈ st.cache := by
+          rcases List.mem_append.1 hp with hp | hp
+          · exact hp
+          · simp only [List.mem_singleton] at hp
+            subst hp
+            exact absurd (hpo.trans hr.owner_seq) hxm
+        intro sb hsb
+        obtain ⟨e, he⟩ := hinv.post ⟨p, hp', hpo⟩ sb hsb
+        exact ⟨e, by rw [m3]; exact List.mem_append_left _ he⟩
+
+
+omit opts plug in
+theorem find?_isSome_of_key {l : List (Nat × Entry)} {k : Nat} {e : Entry} (h : (k, e) ∈ l) :
+    ∃ p, l.find? (·.1 == k) = some p ∧ p ∈ l ∧ p.1 = k := by
+  cases hf : l.find? (·.1 == k) with
+  | none =>
+    have := List.find?_eq_none.1 hf (k, e) h
+    simp at this
+  | some p =>
+    exact ⟨p, rfl, List.mem_of_find?_eq_some hf, by simpa using List.find?_some hf⟩
+
+include ht hr hl hW in
+/-- The conversion state of the split registry: the submodules, converted last, are all cached. -/
+theorem conv_split_state :
+    SInv s R R' opts plug ((mkeysOf R).map (IncludeLink.repl s)) (tstate R' opts plug) := by
+  have hM := conv_split_mods opts plug ht hr hl hW
+  unfold tstate
+  rw [keyOrder_eq, mkeys_split hr, List.foldl_append]
+  generalize ((mkeysOf R).map (IncludeLink.repl s)).foldl
+    (fun st m => (toEntry (envOf R' opts plug) (entryFuel R') m [] m.stmt [] st).2) {} = stM at hM ⊢
+  -- the owner has been converted
+  have hown : s.owner ∈ (mkeysOf R).map (IncludeLink.repl s) :=
+    List.mem_map.2 ⟨s.m, m_mem_mkeys hr, IncludeLink.repl_m s⟩
+  obtain ⟨eo, heo⟩ := hM.cached s.owner hown
+  have hsubs := hM.post ⟨_, heo, rfl⟩
+  have hsame : (skeysOf R').foldl (fun st m => (toEntry (envOf R' opts plug) (entryFuel R') m [] m.stmt [] st).2) stM = stM := by
+    refine foldl_inv (fun st => st = stM) _ _ _ rfl ?_
+    intro st X hX hst
+    subst hst
+    have hXs : X ∈ s.subs := skeys_split hr X hX
+    obtain ⟨e, he⟩ := hsubs X hXs
+    obtain ⟨p, hp, _, _⟩ := find?_isSome_of_key he
+    obtain ⟨f, hf⟩ := entryFuel_succ R'
+    rw [hf, toEntry_cached _ f X [] X.stmt [] st p (sub_kw_mod ht hXs) hp]
+  rw [hsame]
+  exact hM
+
+end SplitConv
+
 end Goyang.Lemmas.IncludeConv
